@@ -255,7 +255,7 @@ struct Work {
 
 pub struct Explore {
     pub agg: Agg,
-    pub batch_hashes: BTreeMap<usize, Vec<Option<(u64, u64)>>>,
+    pub batch_hashes: BTreeMap<usize, Vec<Option<(u64, u64, bool)>>>,
     pub batches_done: usize,
     pub hit_wall_cap: bool,
 }
@@ -307,7 +307,7 @@ pub fn explore(
             };
             let jobs = batch_jobs(base, k, batch, runs);
             let mut pending: Vec<(usize, Job)> = jobs.into_iter().enumerate().collect();
-            let mut hashes: Vec<Option<(u64, u64)>> = vec![None; pending.len()];
+            let mut hashes: Vec<Option<(u64, u64, bool)>> = vec![None; pending.len()];
             let mut first_attempt = true;
             let mut attempts = 0;
             while !pending.is_empty() && attempts < 6 {
@@ -323,7 +323,7 @@ pub fn explore(
                         Some(r) => {
                             o.agg.add(k, *idx, r);
                             if first_attempt {
-                                hashes[*idx] = Some((r.log_hash, r.sched_hash));
+                                hashes[*idx] = Some((r.log_hash, r.sched_hash, r.nondet_window));
                             }
                             last_poisoned = r.deadlock
                                 || r.harness_error.is_some()
@@ -413,6 +413,7 @@ pub fn check(tier_name: &str, base_seed: u64) -> Outcome {
     }
     let mut redo_runs = 0u64;
     let mut redo_mismatch_outcome = 0u64;
+    let mut redo_nondet_skipped = 0u64;
     let mut extra_violating: Vec<(usize, usize, RunRecord)> = Vec::new();
     let d0 = Instant::now();
     for (pass, workers) in [(0usize, t.workers), (1usize, t.redo_workers_alt)] {
@@ -441,6 +442,12 @@ pub fn check(tier_name: &str, base_seed: u64) -> Outcome {
             };
             for (i, (a, b)) in h1.iter().zip(h2.iter()).enumerate() {
                 if let (Some(a), Some(b)) = (a, b) {
+                    if a.2 || b.2 {
+                        // an externally blocked thread opened a window of real concurrency
+                        // (DESIGN §3.4): such runs are not expected to replay bit for bit
+                        redo_nondet_skipped += 1;
+                        continue;
+                    }
                     redo_runs += 1;
                     if a != b {
                         let viol1 = ex.agg.violating.iter().any(|(bk, bi, _)| bk == k && *bi == i);
@@ -646,6 +653,7 @@ pub fn check(tier_name: &str, base_seed: u64) -> Outcome {
                 "batches": redo.len(),
                 "worker_counts": [t.workers, t.redo_workers_alt],
                 "log_hash_mismatches_explained_by_violation": redo_mismatch_outcome,
+                "skipped_runs_with_externally_blocked_thread": redo_nondet_skipped,
                 "wall_s": determinism_s,
             },
             "static_facet": { "send": probe.0, "sync": probe.1 },
